@@ -1,10 +1,10 @@
 (** * C10: arithmetic yields the exact IEEE-754 double or an error, never a wrong number.
     Statements only; proofs are in Proofs/Arith.v.  The double is Coq's own executable IEEE-754
     binary64 (Floats.SpecFloat at precision 53, emax 1024, round to nearest even).
-    Hypotheses of the _partial theorems: the scanner lemmas (Proofs/Scan.v). *)
+    The scanner lemmas the operator theorems rest on are proved in Proofs/Scan.v and Proofs/Scan2.v. *)
 From Coq Require Import List Bool ZArith.
 From JL Require Import Base.Json Base.Lits Base.F64 Base.Dec2Flt Base.Monad Model.JsOp Model.Ops Spec.Specs Spec.OpSpecs.
-From JL Require Import Proofs.Arith Proofs.OpsCorrect Proofs.Scan.
+From JL Require Import Proofs.Arith Proofs.OpsCorrect Proofs.Scan Proofs.Scan2.
 From Coq Require Import String NArith ZArith.
 Local Open Scope string_scope.
 Import ListNotations.
@@ -27,18 +27,22 @@ Proof.
 Qed.
 Print Assumptions C10_number_style_operators.
 
-Theorem C10_operators_partial :
-  (forall s, parse_float_string s = es_parse_float_str s) ->
+Theorem C10_operators :
   (forall vs, op_add vs = arith_spec OAdd vs) /\ (forall vs, op_mul vs = arith_spec OMul vs) /\
   (forall vs, op_max vs = arith_spec OMax vs) /\ (forall vs, op_min vs = arith_spec OMin vs) /\
   (forall a b, op_div [a; b] = arith_spec ODiv [a; b]) /\ (forall a b, op_mod [a; b] = arith_spec OMod [a; b]) /\
   (forall vs, (List.length vs = 1 \/ List.length vs = 2)%nat -> op_minus vs = arith_spec OSub vs).
 Proof.
-  intros H2. pose proof str_to_number_spec as H1. repeat split; intros.
+  pose proof parse_float_string_spec as H2. pose proof str_to_number_spec as H1. repeat split; intros.
   - apply op_add_spec, H2. - apply op_mul_spec, H2. - apply op_max_spec, H1. - apply op_min_spec, H1.
   - apply op_div_spec, H1. - apply op_mod_spec, H1. - apply op_minus_spec; assumption.
 Qed.
-Print Assumptions C10_operators_partial.
+Print Assumptions C10_operators.
+
+(** the parseFloat scanner itself, for every string *)
+Theorem C10_parse_float_longest_prefix : forall s, parse_float_string s = es_parse_float_str s.
+Proof. exact parse_float_string_spec. Qed.
+Print Assumptions C10_parse_float_longest_prefix.
 
 (** a result is a number exactly when every operand is numeric and the double is finite *)
 Theorem C10_error_iff :
